@@ -84,6 +84,7 @@ def run(ctx):
     # certificates
     us = [ucfg(sig=s) for s in ([1, 1], [1, -1], [0, 1], [1, 1, 1], [1, 1, -1], [0, 1, 1], [-1, -1, -1], [1, 1, 1, -1], [0, 1, 1, 1])]
     us += [named_ucfg('2DPGA'), ucfg(3, 0, 1), ucfg(sig=[1, 1, 1, 1, -1])]
+    us += [ucfg(2, 0, 2), ucfg(sig=[1, 1, 0]), ucfg(1, 0, 2), ucfg(sig=[1, 0, -1, 0])]      # null generators that are NOT first (r >= 2 / hand-ordered)
     if not q:
         us += [ucfg(sig=s) for s in ([1], [-1], [0], [-1, -1], [0, 0, 1], [1, -1, 1, -1], [1] * 6, [0, 1, 1, 1, 1])] + [named_ucfg('3DPGA')]
     tdir = os.path.join(ctx.work, 'cert')
